@@ -45,6 +45,7 @@ struct Config {
   int64_t track = 512;         // bytes tracked per region
   int64_t maxSteps = 4000000;  // per path
   int64_t maxPaths = 200000;   // per cell
+  int64_t maxWallSec = 1800;   // per cell: wall-clock budget (the cell is then reported as budget-exhausted)
   int64_t loopFuel = 70000;
   int concrMax = 128;
   int widenAfter = 12;
